@@ -301,6 +301,8 @@ def dec_rcg(text):
 
 
 def dec_lopar_gram(text):
+    """-> {(lhs, rhs1, ..., rhsk): count}: context-free rules in surface order.  The file is
+    read as a multiset of rules: the counts of a rule listed twice are added."""
     out = {}
     for line in text.split("\n"):
         p = line.split(" ")
@@ -308,12 +310,17 @@ def dec_lopar_gram(text):
             continue
         if len(p) < 3 or not p[0].isdigit():
             raise GramDecodeError("cannot parse %r" % line)
-        func = tuple(p[1:])
-        lin = (tuple((i, 0) for i in range(len(func) - 1)),)
-        key = (func, lin)
-        if key in out:
-            raise GramDecodeError("rule written twice")
-        out[key] = int(p[0])
+        key = tuple(p[1:])
+        out[key] = out.get(key, 0) + int(p[0])
+    return out
+
+
+def surface_cfg(flatgram):
+    """{(func, lin): count} of a context-free grammar -> {(lhs, rhs in surface order): count}"""
+    out = {}
+    for (func, lin), c in flatgram.items():
+        key = tuple([func[0]] + [func[i + 1] for (i, _) in lin[0]])
+        out[key] = out.get(key, 0) + c
     return out
 
 
